@@ -316,6 +316,27 @@ _SPEC_RE = re.compile(r'^(?P<fill>.)?(?P<al>[<>^])?(?P<zero>0)?'
                       r'(?P<w>\d+)s?$')
 
 
+def _format_call(expr):
+    """'a-%s' % (x, y) as the positional template call '{0}-{1}'.format(x,
+    y); anything else unchanged."""
+    if isinstance(expr, ast.BinOp) and isinstance(expr.op, ast.Mod) and \
+            isinstance(expr.left, ast.Constant) and \
+            isinstance(expr.left.value, str) and \
+            re.sub(r'%s', '', expr.left.value).count('%') == 0:
+        args = expr.right.elts if isinstance(expr.right, ast.Tuple) \
+            else [expr.right]
+        pieces = expr.left.value.split('%s')
+        if len(pieces) == len(args) + 1:
+            tmpl = ''.join(piece.replace('{', '{{').replace('}', '}}') +
+                           ('{%d}' % i if i < len(args) else '')
+                           for i, piece in enumerate(pieces))
+            return ast.Call(
+                func=ast.Attribute(value=ast.Constant(value=tmpl),
+                                   attr='format', ctx=ast.Load()),
+                args=list(args), keywords=[])
+    return expr
+
+
 def _width_of(expr, index=None, mod=None, func=None):
     """(template text, {field: (width, spec)}) of a '{x:>013s}'.format(...)
     call, of the builtin format(value, '>013s'), and of a template whose
@@ -328,12 +349,38 @@ def _width_of(expr, index=None, mod=None, func=None):
                 mt = _SPEC_RE.match(spec)
                 if mt:
                     return int(mt.group('w')), spec
+        # x.rjust(13, '0') / x.zfill(13): right-aligned zero padding
+        if isinstance(call, ast.Call) and K.is_meth(call, 'rjust') and \
+                len(call.args) == 2 and index is not None:
+            width = try_fold(index, mod, call.args[0])
+            fill = try_fold(index, mod, call.args[1])
+            if isinstance(width, int) and fill == '0':
+                return width, '>0%d' % width
+        if isinstance(call, ast.Call) and K.is_meth(call, 'zfill') and \
+                len(call.args) == 1 and index is not None:
+            width = try_fold(index, mod, call.args[0])
+            if isinstance(width, int):
+                return width, '>0%d' % width
+        # '{:>013s}'.format(x): a one-field template
+        if isinstance(call, ast.Call) and K.is_meth(call, 'format') and \
+                isinstance(K.recv(call), ast.Constant) and \
+                isinstance(K.recv(call).value, str):
+            flds = [(f, sp) for _l, f, sp, _c in
+                    string.Formatter().parse(K.recv(call).value)
+                    if f is not None]
+            lits = ''.join(l for l, _f, _s, _c in
+                           string.Formatter().parse(K.recv(call).value))
+            if len(flds) == 1 and flds[0][1] and not lits:
+                mt = _SPEC_RE.match(flds[0][1])
+                if mt:
+                    return int(mt.group('w')), flds[0][1]
         return None
     if func is not None:
         expr = K.rexpr(func, expr)
     direct = spec_of(expr)
     if direct is not None:
         return '{0:%s}' % direct[1], {'0': direct}
+    expr = _format_call(expr)
     if isinstance(expr, ast.Call) and K.is_meth(expr, 'format') and \
             isinstance(K.recv(expr), ast.Constant):
         tmpl = K.recv(expr).value
@@ -448,7 +495,7 @@ def _unique(ctx):
            [w for w, _s in widths.values()] == [13],
            "unique name = <app>-<id padded to 13>: %r" % tmpl,
            construct='unique name template')
-    call = rets[0].value if rets else None
+    call = _format_call(K.rexpr(fmt, rets[0].value)) if rets else None
     appkw = None
     if call is not None and tmpl is not None and isinstance(call, ast.Call):
         fields = [fld for _l, fld, _s, _c in string.Formatter().parse(tmpl)
